@@ -25,6 +25,10 @@ fn main() {
         install_panic_hook_child();
         std::process::exit(rsv::props::c16::child_main());
     }
+    if args[0] == "c14-child" {
+        install_panic_hook_child();
+        std::process::exit(rsv::props::c14::child_main());
+    }
     if args[0] == "list" {
         for p in props::all() {
             println!("{}", p.id);
